@@ -1305,8 +1305,16 @@ char* string_print_formatted (char *format_str, int argc, svalue_t * argv) {
               else if (finfo & INFO_T_INT)
                 {		/* one of the integer
                                  * types */
-                  char cheat[8];
-                  char temp[100];
+                  char cheat[16];	/* '%', sign flag, '.', two digits, conversion, NUL */
+                  char temp[512];	/* DBL_MAX printed with 99 fraction digits is 410 characters */
+                  int npres = pres;
+
+                  /* the precision comes from the LPC format string (or a '*' argument):
+                   * keep the C format and its output inside the buffers above */
+                  if (npres > 99)
+                    npres = 99;
+                  else if (npres < 0)
+                    npres = 0;
 
                   *cheat = '%';
                   i = 1;
@@ -1319,10 +1327,10 @@ char* string_print_formatted (char *format_str, int argc, svalue_t * argv) {
                       cheat[i++] = '+';
                       break;
                     }
-                  if (pres)
+                  if (npres)
                     {
                       cheat[i++] = '.';
-                      sprintf (cheat + i, "%d", pres);
+                      sprintf (cheat + i, "%d", npres);
                       i += (int)strlen (cheat + i);
                     }
                   switch (finfo & INFO_T)
